@@ -567,6 +567,84 @@ def acctUpdate (fs : FS) (dir : Path) (old new : Bytes) (yaml : Bytes) : FS :=
 
 def acctDelete (fs : FS) (dir : Path) (login : Bytes) : FS := (FS.remove fs (acctFile1 dir login)).2
 
+-- ---------------------------------------------------------------- (FS) a directory that no operation names as a source survives
+
+namespace FSX
+open Mobius.FS
+
+/-- Arguments whose binding an operation may REMOVE (sources of renames, removals). -/
+def strictArgs : FSOp → List Path
+  | .rename a _ => [a]
+  | .remove p => [p]
+  | .removeAll p => [p]
+  | _ => []
+
+theorem strict_not_prefix {r p : Path} (h : r <+: p) (hne : p ≠ r) : ¬ p <+: r :=
+  fun h2 => hne (List.IsPrefix.eq_of_length h2 (Nat.le_antisymm h2.length_le h.length_le))
+
+/-- A directory `r` survives an operation whose path arguments all lie under `r` and whose removed
+    arguments are not `r` itself: creating, linking, writing or renaming ONTO an existing directory fails. -/
+theorem keeps_dir (op : FSOp) (fs : FS) (r : Path) (hd : lookup fs r = some .dir)
+    (hu : ∀ q ∈ op.paths, r <+: q) (hs : ∀ q ∈ strictArgs op, q ≠ r) : lookup (op.apply fs).2 r = some .dir := by
+  cases op with
+  | mkdir p =>
+    by_cases hp : p = r
+    · subst hp; simp [FSOp.apply, FS.mkdir, hd]
+    · rw [show (FSOp.mkdir p).apply fs = FS.mkdir fs p from rfl,
+        mkdir_frame fs p r (strict_not_prefix (hu p (by simp [FSOp.paths])) hp)]; exact hd
+  | rename a b =>
+    have ha : a ≠ r := hs a (by simp [strictArgs])
+    have hna := strict_not_prefix (hu a (by simp [FSOp.paths])) ha
+    by_cases hb : b = r
+    · subst hb
+      simp only [FSOp.apply, FS.rename, hd]
+      cases lookup fs a <;> exact hd
+    · rw [show (FSOp.rename a b).apply fs = FS.rename fs a b from rfl,
+        rename_frame fs a b r hna (strict_not_prefix (hu b (by simp [FSOp.paths])) hb)]; exact hd
+  | remove p =>
+    have hp : p ≠ r := hs p (by simp [strictArgs])
+    rw [show (FSOp.remove p).apply fs = FS.remove fs p from rfl,
+      remove_frame fs p r (strict_not_prefix (hu p (by simp [FSOp.paths])) hp)]; exact hd
+  | removeAll p =>
+    have hp : p ≠ r := hs p (by simp [strictArgs])
+    rw [show (FSOp.removeAll p).apply fs = FS.removeAll fs p from rfl,
+      removeAll_frame fs p r (strict_not_prefix (hu p (by simp [FSOp.paths])) hp)]; exact hd
+  | symlink t p =>
+    by_cases hp : p = r
+    · subst hp; simp [FSOp.apply, FS.symlink, hd]
+    · rw [show (FSOp.symlink t p).apply fs = FS.symlink fs t p from rfl,
+        symlink_frame fs t p r (strict_not_prefix (hu p (by simp [FSOp.paths])) hp)]; exact hd
+  | writeFile p d =>
+    by_cases hp : p = r
+    · subst hp; simp [FSOp.apply, FS.writeFile, hd]
+    · rw [show (FSOp.writeFile p d).apply fs = FS.writeFile fs p d from rfl,
+        writeFile_frame fs p r d (strict_not_prefix (hu p (by simp [FSOp.paths])) hp)]; exact hd
+  | hardlink a b =>
+    by_cases hb : b = r
+    · subst hb
+      simp only [FSOp.apply, FS.hardlink, hd]
+      cases h : lookup fs a with
+      | none => exact hd
+      | some n => cases n <;> exact hd
+    · rw [show (FSOp.hardlink a b).apply fs = FS.hardlink fs a b from rfl,
+        hardlink_frame fs a b r (strict_not_prefix (hu b (by simp [FSOp.paths])) hb)]; exact hd
+
+theorem runSeq_keeps_dir (ops : List (FSOp × Bool)) (fs : FS) (r : Path) (hd : lookup fs r = some .dir)
+    (hu : ∀ o ∈ ops, ∀ q ∈ o.1.paths, r <+: q) (hs : ∀ o ∈ ops, ∀ q ∈ strictArgs o.1, q ≠ r) :
+    lookup (runSeq fs ops).2 r = some .dir := by
+  induction ops generalizing fs with
+  | nil => exact hd
+  | cons o ops ih =>
+    obtain ⟨op, tol⟩ := o
+    have h1 := keeps_dir op fs r hd (hu (op, tol) (by simp)) (hs (op, tol) (by simp))
+    unfold runSeq
+    dsimp only
+    split
+    · exact ih _ h1 (fun o ho => hu o (by simp [ho])) (fun o ho => hs o (by simp [ho]))
+    · exact h1
+
+end FSX
+
 -- ---------------------------------------------------------------- containment lemmas (C07)
 
 theorem under_append (root d x : Path) (h : root <+: d) : root <+: d ++ x :=
@@ -575,20 +653,33 @@ theorem under_append (root d x : Path) (h : root <+: d) : root <+: d ++ x :=
 theorem paths_subset_args (op : FSOp) : ∀ q ∈ op.paths, q ∈ op.args := by
   cases op <;> simp [FSOp.paths, FSOp.args]
 
-/-- `fs'` agrees with `fs` on every path outside `root`, and if all symlinks of `fs` point inside
-    `root`, so do those of `fs'`. -/
+/-- `fs'` agrees with `fs` on every path outside `root`; if all symlinks of `fs` point inside
+    `root`, so do those of `fs'`; and if `root` is a directory in `fs` it still is in `fs'`. -/
 def Keeps (root : Path) (fs fs' : FS) : Prop :=
-  (∀ x, ¬ root <+: x → lookup fs' x = lookup fs x) ∧ (LinksInside root fs → LinksInside root fs')
+  (∀ x, ¬ root <+: x → lookup fs' x = lookup fs x) ∧ (LinksInside root fs → LinksInside root fs') ∧
+  (lookup fs root = some .dir → lookup fs' root = some .dir)
 
-theorem Keeps.rfl' (root : Path) (fs : FS) : Keeps root fs fs := ⟨fun _ _ => rfl, id⟩
+theorem Keeps.rfl' (root : Path) (fs : FS) : Keeps root fs fs := ⟨fun _ _ => rfl, id, id⟩
 
 theorem Keeps.trans {root : Path} {a b c : FS} (h1 : Keeps root a b) (h2 : Keeps root b c) : Keeps root a c :=
-  ⟨fun x hx => (h2.1 x hx).trans (h1.1 x hx), fun h => h2.2 (h1.2 h)⟩
+  ⟨fun x hx => (h2.1 x hx).trans (h1.1 x hx), fun h => h2.2.1 (h1.2.1 h), fun h => h2.2.2 (h1.2.2 h)⟩
 
 theorem runSeq_keeps (root : Path) (ops : List (FSOp × Bool)) (fs : FS)
-    (h : ∀ o ∈ ops, ∀ q ∈ o.1.args, root <+: q) : Keeps root fs (runSeq fs ops).2 :=
+    (h : ∀ o ∈ ops, ∀ q ∈ o.1.args, root <+: q) (hs : ∀ o ∈ ops, ∀ q ∈ FSX.strictArgs o.1, q ≠ root) :
+    Keeps root fs (runSeq fs ops).2 :=
   ⟨fun x hx => runSeq_outside root ops fs x (fun o ho q hq => h o ho q (paths_subset_args o.1 q hq)) hx,
-   fun hl => runSeq_linksInside root ops fs hl (fun o ho t p e => h o ho t (by rw [e]; simp [FSOp.args]))⟩
+   fun hl => runSeq_linksInside root ops fs hl (fun o ho t p e => h o ho t (by rw [e]; simp [FSOp.args])),
+   fun hd => FSX.runSeq_keeps_dir ops fs root hd (fun o ho q hq => h o ho q (paths_subset_args o.1 q hq)) hs⟩
+
+theorem wrapperPaths_ne_root (root t : Path) (h : root <+: t) (hne : t ≠ root) : ∀ q ∈ wrapperPaths t, q ≠ root := by
+  obtain ⟨r, rfl⟩ := h
+  have hr : r ≠ [] := by intro e; apply hne; simp [e]
+  have hd : (root ++ r).dropLast = root ++ r.dropLast := List.dropLast_append_of_ne_nil hr
+  intro q hq
+  simp only [wrapperPaths, wrapper, hd, List.mem_cons, List.mem_nil_iff, or_false] at hq
+  rcases hq with rfl | rfl | rfl | rfl
+  · exact hne
+  all_goals (intro e; have := congrArg List.length e; simp at this)
 
 theorem withTarget_keeps (root : Path) (fs : FS) (pf : Option Bytes) (name : Bytes) (k : Path → FS × Reply)
     (h : ∀ t, target root pf name = .ok t → Keeps root fs (k t).1) : Keeps root fs (withTarget root fs pf name k).1 := by
@@ -619,6 +710,28 @@ theorem deleteScript_args_under (root t : Path) (ht : root <+: t) (hne : t ≠ r
   simp only [deleteScript, List.mem_cons, List.mem_nil_iff, or_false] at ho
   rcases ho with rfl | rfl | rfl | rfl <;>
     simp only [FSOp.args, FSOp.paths, List.mem_cons, List.mem_nil_iff, or_false] at hq <;>
+    subst hq <;> assumption
+
+theorem deleteScript_strict (root t : Path) (ht : root <+: t) (hne : t ≠ root) :
+    ∀ o ∈ deleteScript t, ∀ q ∈ FSX.strictArgs o.1, q ≠ root := by
+  have hw := wrapperPaths_ne_root root t ht hne
+  simp only [wrapperPaths, List.mem_cons, List.mem_nil_iff, or_false, forall_eq_or_imp, forall_eq] at hw
+  obtain ⟨h1, h2, h3, h4⟩ := hw
+  intro o ho q hq
+  simp only [deleteScript, List.mem_cons, List.mem_nil_iff, or_false] at ho
+  rcases ho with rfl | rfl | rfl | rfl <;>
+    simp only [FSX.strictArgs, List.mem_cons, List.mem_nil_iff, or_false] at hq <;>
+    subst hq <;> assumption
+
+theorem moveScript_strict (root t d : Path) (nmData : List Comp) (nm : Comp) (ht : root <+: t) (hne : t ≠ root) :
+    ∀ o ∈ moveScript t d nmData nm, ∀ q ∈ FSX.strictArgs o.1, q ≠ root := by
+  have hw := wrapperPaths_ne_root root t ht hne
+  simp only [wrapperPaths, List.mem_cons, List.mem_nil_iff, or_false, forall_eq_or_imp, forall_eq] at hw
+  obtain ⟨h1, h2, h3, h4⟩ := hw
+  intro o ho q hq
+  simp only [moveScript, List.mem_cons, List.mem_nil_iff, or_false] at ho
+  rcases ho with rfl | rfl | rfl | rfl <;>
+    simp only [FSX.strictArgs, List.mem_cons, List.mem_nil_iff, or_false] at hq <;>
     subst hq <;> assumption
 
 theorem isRoot_false {root t : Path} (h : isRoot root t = false) : t ≠ root := by
@@ -665,6 +778,7 @@ theorem newFolder_keeps (root : Path) (hr : RootOK root) (fs : FS) (pf : Option 
   have hu := target_under root hr pf name t ht
   have hk : Keeps root fs (runSeq fs [(FSOp.mkdir t, false)]).2 :=
     runSeq_keeps root _ fs (by intro o ho q hq; simp at ho; subst ho; simp [FSOp.args, FSOp.paths] at hq; subst hq; exact hu)
+      (by intro o ho q hq; simp at ho; subst ho; simp [FSX.strictArgs] at hq)
   split
   · dsimp only
     split <;> exact hk
@@ -680,7 +794,7 @@ theorem delete_keeps (root : Path) (hr : RootOK root) (fs : FS) (pf : Option Byt
   · rw [if_pos hroot]; exact Keeps.rfl' root fs
   · rw [if_neg hroot]
     have hne := isRoot_false (by simpa using hroot)
-    have hk := runSeq_keeps root (deleteScript t) fs (deleteScript_args_under root t hu hne)
+    have hk := runSeq_keeps root (deleteScript t) fs (deleteScript_args_under root t hu hne) (deleteScript_strict root t hu hne)
     split
     · exact Keeps.rfl' root fs
     · exact Keeps.rfl' root fs
@@ -703,7 +817,7 @@ theorem move_keeps (root : Path) (hr : RootOK root) (fs : FS) (pf : Option Bytes
   · rw [if_neg hroot]
     have hne := isRoot_false (by simpa using hroot)
     have hk := runSeq_keeps root (moveScript t d [(wrapper t).name] (wrapper t).name) fs
-      (moveScript_args_under root t d _ _ hu hne hdu)
+      (moveScript_args_under root t d _ _ hu hne hdu) (moveScript_strict root t d _ _ hu hne)
     split
     · exact Keeps.rfl' root fs
     · exact Keeps.rfl' root fs
@@ -725,6 +839,7 @@ theorem alias_keeps (root : Path) (hr : RootOK root) (fs : FS) (pf : Option Byte
     runSeq_keeps root _ fs (by
       intro o ho q hq; simp at ho; subst ho
       simp [FSOp.args] at hq; rcases hq with rfl | rfl <;> assumption)
+      (by intro o ho q hq; simp at ho; subst ho; simp [FSX.strictArgs] at hq)
   dsimp only
   split <;> exact hk
 
@@ -736,6 +851,7 @@ theorem commentStep_keeps (root : Path) (fs : FS) (t : Path) (fork : InfoFork) (
     exact runSeq_keeps root _ fs (by
       intro o ho q hq; simp at ho; subst ho
       simp [FSOp.args, FSOp.paths] at hq; subst hq; exact hinfo)
+      (by intro o ho q hq; simp at ho; subst ho; simp [FSX.strictArgs] at hq)
 
 theorem renameStep_keeps (root : Path) (hr : RootOK root) (fs : FS) (pf : Option Bytes) (t : Path) (isDir : Bool)
     (nn : Option Bytes) (hu : root <+: t) (hne : t ≠ root) : Keeps root fs (renameStep root fs pf t isDir nn).1 := by
@@ -751,12 +867,13 @@ theorem renameStep_keeps (root : Path) (hr : RootOK root) (fs : FS) (pf : Option
         runSeq_keeps root _ _ (by
           intro o ho q hq; simp at ho; subst ho
           simp [FSOp.args, FSOp.paths] at hq; rcases hq with rfl | rfl <;> assumption)
+          (by intro o ho q hq; simp at ho; subst ho; simp [FSX.strictArgs] at hq; subst hq; exact hne)
       split <;> exact hk
     · apply withTarget_keeps
       intro d hd
       have hdu := target_under root hr pf [] d hd
       have hk := runSeq_keeps root (moveScript t d (newNameComps nn) (baseName (newNameComps nn))) fs
-        (moveScript_args_under root t d _ _ hu hne hdu)
+        (moveScript_args_under root t d _ _ hu hne hdu) (moveScript_strict root t d _ _ hu hne)
       split <;> exact hk
 
 theorem setInfo_keeps (root : Path) (hr : RootOK root) (fs : FS) (pf : Option Bytes) (name : Bytes)
@@ -1983,5 +2100,120 @@ theorem rename_ok_runs (root : Path) (fs : FS) (pf : Option Bytes) (name nn : By
           exact Prod.ext hr h2
         | notExist => simp [hr] at hok
         | other => simp [hr] at hok
+
+-- ---------------------------------------------------------------- FormattedPath at string level
+
+theorem splitSlash_intercalate (es : List Bytes) (h : es ≠ []) :
+    PathAlg.splitSlash (intercalateSlash es) = es.flatMap PathAlg.splitSlash := by
+  induction es with
+  | nil => exact absurd rfl h
+  | cons a rest ih =>
+    cases rest with
+    | nil => simp [intercalateSlash]
+    | cons b rest' =>
+      rw [intercalateSlash, splitSlash_append, ih (by simp)]
+      simp
+
+theorem foldl_step_flatMap (segs : List Bytes) (st : List Comp) :
+    (segs.flatMap PathAlg.splitSlash).foldl step st = segs.foldl joinRooted st := by
+  induction segs generalizing st with
+  | nil => rfl
+  | cons s rest ih =>
+    simp only [List.flatMap_cons, List.foldl_append, List.foldl_cons]
+    exact ih _
+
+theorem joinRooted_empty (st : List Comp) : joinRooted st [] = st := by
+  simp [joinRooted, PathAlg.splitSlash, step_nil]
+
+theorem foldl_joinRooted_dropWhile (segs : List Bytes) (st : List Comp) :
+    (segs.dropWhile (fun e => e.isEmpty)).foldl joinRooted st = segs.foldl joinRooted st := by
+  induction segs generalizing st with
+  | nil => rfl
+  | cons s rest ih =>
+    by_cases hs : s.isEmpty = true
+    · have : s = [] := List.isEmpty_iff.mp hs
+      subst this
+      simp only [List.dropWhile_cons, List.isEmpty_nil, if_true, List.foldl_cons, joinRooted_empty]
+      exact ih st
+    · simp [hs]
+
+theorem foldl_step_dotdots (k : Nat) (cs : List Comp) : (List.replicate k dotdot ++ cs).foldl step [] = cs.foldl step [] := by
+  induction k with
+  | zero => simp
+  | succ k ih =>
+    simp only [List.replicate_succ, List.cons_append, List.foldl_cons]
+    have : step [] dotdot = [] := by decide
+    rw [this]; exact ih
+
+theorem splitSlash_intercalate_comps (cs : List Comp) (h : cs ≠ []) (hns : ∀ c ∈ cs, slash ∉ c) :
+    PathAlg.splitSlash (intercalateSlash cs) = cs := by
+  rw [splitSlash_intercalate cs h]
+  induction cs with
+  | nil => rfl
+  | cons c rest ih =>
+    simp only [List.flatMap_cons]
+    rw [splitSlash_noslash c (hns c (by simp))]
+    cases rest with
+    | nil => simp
+    | cons d rest' =>
+      have := ih (by simp) (fun x hx => hns x (by simp [hx]))
+      simp only [List.flatMap_cons] at this ⊢
+      rw [this]; simp
+
+theorem dotdot_noslash : slash ∉ dotdot := by decide
+
+theorem clean_dot : (PathAlg.splitSlash dot).foldl step [] = [] := by decide
+
+/-- Cleaning a RELATIVE string and then joining it below `/` = the rooted clean of its components. -/
+theorem rooted_of_cleanStr (s : Bytes) :
+    (PathAlg.splitSlash (cleanStr s)).foldl step [] = (PathAlg.splitSlash s).foldl step [] := by
+  unfold cleanStr
+  by_cases h0 : s = []
+  · subst h0; simp only [if_true]; rw [clean_dot]; decide
+  · rw [if_neg h0]
+    have hn : ∀ c ∈ (PathAlg.splitSlash s).foldl step [], Normal c :=
+      foldl_step_normal _ _ (by simp) (splitSlash_no_slash s)
+    by_cases hh : s.head? = some slash
+    · rw [if_pos hh, foldl_step_renderAbs _ _ (fun x hx => normal_noslash (hn x hx))]
+      exact foldl_step_of_normal _ _ hn
+    · rw [if_neg hh]
+      dsimp only
+      have hst := relStep_step (PathAlg.splitSlash s) (0, [])
+      simp only at hst
+      generalize hk : (List.foldl relStep (0, []) (PathAlg.splitSlash s)) = p at *
+      obtain ⟨k, st⟩ := p
+      simp only at hst ⊢
+      rw [hst]
+      unfold renderRel
+      by_cases he : List.replicate k dotdot ++ (PathAlg.splitSlash s).foldl step [] = []
+      · rw [if_pos he]
+        have h2 : (PathAlg.splitSlash s).foldl step [] = [] := (List.append_eq_nil_iff.mp he).2
+        rw [h2]
+        exact clean_dot
+      · rw [if_neg he, splitSlash_intercalate_comps _ he (by
+          intro c hc
+          rcases List.mem_append.mp hc with h | h
+          · rw [(List.mem_replicate.mp h).2]; exact dotdot_noslash
+          · exact normal_noslash (hn c h)), foldl_step_dotdots]
+        exact foldl_step_of_normal _ _ hn
+
+/-- `strings.TrimPrefix(filepath.Join("/", filepath.Join(segments…)), "/")` on byte STRINGS renders the
+    component-level `formattedComps`, for all segments. -/
+theorem formattedPath_string_level (segs : List Bytes) :
+    joinStr [[slash], joinStr segs] = renderAbs (formattedComps segs) := by
+  have outer : ∀ j : Bytes, joinStr [[slash], j] = renderAbs ((PathAlg.splitSlash j).foldl step []) := by
+    intro j
+    have e : joinStr [[slash], j] = cleanStr (slash :: slash :: j) := by simp [joinStr, intercalateSlash]
+    rw [e, cleanStr_rooted, splitSlash_slash, splitSlash_slash]
+    simp [step_nil]
+  rw [outer]
+  congr 1
+  unfold joinStr formattedComps
+  rw [← foldl_joinRooted_dropWhile segs []]
+  cases hes : segs.dropWhile (fun e => e.isEmpty) with
+  | nil => simp [PathAlg.splitSlash, step_nil]
+  | cons a rest =>
+    simp only
+    rw [rooted_of_cleanStr, splitSlash_intercalate _ (by simp), foldl_step_flatMap]
 
 end Mobius.FileOps
